@@ -181,6 +181,18 @@ pub fn specs(thorough: bool) -> Vec<BuildSpec> {
             }
         }
     }
+    // (2f) the size ladder: 2^k − 1, 2^k, 2^k + 1 for every k from 13 to 20 (thorough: 24) in one package
+    for c in [Comp::None, Comp::Gzip(1), Comp::Zstd(1), Comp::Xz(0)] {
+        for large in [false, true] {
+            let mut files = vec![];
+            for k in 13..=(if thorough { 24 } else { 20 }) {
+                for (d, n) in [(-1i64, "m"), (0, "e"), (1, "p")] {
+                    files.push(FileSpec::new(&format!("/ladder/k{:02}{}", k, n), content((k % 2) as u64, ((1i64 << k) + d) as usize)));
+                }
+            }
+            v.push(mk(files, c, large));
+        }
+    }
     // (3) two and three files, every ordered size tuple over a small set
     let small = [0usize, 1, 3, 4, 5, 4096];
     for c in [Comp::None, Comp::Gzip(6), Comp::Zstd(3), Comp::Xz(1)] {
@@ -312,8 +324,9 @@ fn foreign_cases() -> Vec<Foreign> {
     for files in &sets {
         for order in permutations(files.len()) {
             for (cname, comp) in [("none", None), ("gzip", Some("gzip"))] {
-                for stripped in [false, true] {
+                for (stripped, upper) in [(false, false), (true, false), (false, true)] {
                     let arch = if stripped { foreign::stripped_archive(files, &order) } else { foreign::newc_archive(files, &order) };
+                    let arch = if upper { foreign::newc_upper_hex(&arch) } else { arch };
                     let payload = if comp.is_some() { gzip(&arch) } else { arch };
                     let mut parts = foreign::package("foreign", files, payload, comp, stripped);
                     if stripped {
@@ -327,7 +340,7 @@ fn foreign_cases() -> Vec<Foreign> {
                     v.push(Foreign {
                         desc: json!({"header_files": files.iter().map(|f| json!({"path": f.path(), "ghost": f.flags & 64 != 0})).collect::<Vec<_>>(),
                                      "archive_order": order.iter().map(|&i| files[i].path()).collect::<Vec<_>>(), "compression": cname,
-                                     "layout": if stripped {"stripped (07070X + index, padded to 4, as rpm writes it)"} else {"newc"}}),
+                                     "layout": if stripped {"stripped (07070X + index, padded to 4, as rpm writes it)"} else if upper {"newc with upper-case hexadecimal header fields (as GNU cpio writes them)"} else {"newc"}}),
                         bytes,
                         expect,
                     });
@@ -367,7 +380,7 @@ pub fn run(ctx: &Ctx) -> i32 {
         "built",
         "A",
         &format!(
-            "{} packages built by the library: 0–3 files; sizes {:?}{} (every residue mod 4) × compressible / incompressible content; name lengths 1–5, 255, 4000; every compression type {} × standard and stripped (large-file, forced by the verif hook) layout; all ordered size tuples over {{0,1,3,4,5,4096}} for 2 and 3 files given out of path order; file sets whose paths are suffixes / prefixes / case variants / dot-prefixed twins of one another; sources that are kernel-backed files (stat size 0) or symbolic links; 255 / 256 / 257 / 1000 files (thorough: 65 535 / 65 536 / 65 537) in one directory and in one directory each; names that look like archive markers (TRAILER!!!, 070701); directory / link / ghost / untyped entries built from sources with content; zstd levels 20–22. Oracle: files() yields exactly the given files in path order, bytes identical, length = recorded size, SHA-256 = recorded digest. non-trivial = package with ≥ 1 file",
+            "{} packages built by the library: 0–3 files; sizes {:?}{} (every residue mod 4) × compressible / incompressible content; name lengths 1–5, 255, 4000; every compression type {} × standard and stripped (large-file, forced by the verif hook) layout; all ordered size tuples over {{0,1,3,4,5,4096}} for 2 and 3 files given out of path order; file sets whose paths are suffixes / prefixes / case variants / dot-prefixed twins of one another; sources that are kernel-backed files (stat size 0) or symbolic links; 255 / 256 / 257 / 1000 files (thorough: 65 535 / 65 536 / 65 537) in one directory and in one directory each; a ladder of sizes 2^k − 1, 2^k, 2^k + 1 for k = 13…20 (thorough: …24) in one package per compressor and layout; names that look like archive markers (TRAILER!!!, 070701); directory / link / ghost / untyped entries built from sources with content; zstd levels 20–22. Oracle: files() yields exactly the given files in path order, bytes identical, length = recorded size, SHA-256 = recorded digest. non-trivial = package with ≥ 1 file",
             specs.len(), SIZES, if ctx.thorough() { ", 1 MiB, 5 MiB" } else { "" }, if ctx.thorough() { "and every documented level (gzip 0–9, xz 0–9, zstd 1–22)" } else { "at three levels each" }
         ),
         a,
@@ -418,18 +431,58 @@ pub fn run(ctx: &Ctx) -> i32 {
     let s2 = SubReport::new(
         "foreign",
         "A",
-        &format!("{} hand-encoded packages: 4 file sets (1–3 header files incl. a %ghost file that is not archived, a symlink, an empty file) × every ordered selection of their entries as archive order × {{uncompressed, gzip}} × {{newc, stripped entries with rpm's alignment bytes}}. Oracle: files() yields the archived entries in archive order, each under the metadata of the file of that name (of that index for stripped entries), bytes identical", fc.len()),
+        &format!("{} hand-encoded packages: 4 file sets (1–3 header files incl. a %ghost file that is not archived, a symlink, an empty file) × every ordered selection of their entries as archive order × {{uncompressed, gzip}} × {{newc, newc with upper-case hexadecimal header fields, stripped entries with rpm's alignment bytes}}. Oracle: files() yields the archived entries in archive order, each under the metadata of the file of that name (of that index for stripped entries), bytes identical", fc.len()),
         b,
     );
-    if s1.acc.nontrivial == 0 || s2.acc.nontrivial == 0 {
+    // payloads around the sizes at which compressors change their behaviour (window sizes, block sizes): one at a time,
+    // they are big
+    let s3 = {
+        let mut acc = Acc::new();
+        let mut cases: Vec<(usize, usize, Comp)> = vec![(1, (1 << 27) + 4096, Comp::Zstd(1))];
+        if ctx.thorough() {
+            for total in [(1usize << 26) + 4096, (1 << 27) - 4096, (1 << 27) + 4096, (1 << 28) + 4096] {
+                for c in [Comp::None, Comp::Gzip(1), Comp::Zstd(3), Comp::Zstd(19), Comp::Xz(0)] {
+                    cases.push((1, total, c));
+                }
+            }
+            cases.push((3, (1 << 27) + 4096, Comp::Zstd(1)));
+            cases.push((3, (1 << 27) + 4096, Comp::Default));
+            cases.push((1, (1 << 30) + 4096, Comp::Zstd(1)));
+        }
+        for (k, (n_files, total, comp)) in cases.iter().enumerate() {
+            acc.evals += 1;
+            let mut spec = BuildSpec::minimal();
+            spec.name = format!("big-{}", k);
+            spec.compression = comp.clone();
+            for j in 0..*n_files {
+                spec.files.push(FileSpec::new(&format!("/big/part{}", j), Content::Text(total / n_files + j)));
+            }
+            let case = || json!({"files": n_files, "bytes_in_all": total, "compression": format!("{:?}", comp)});
+            match catch(|| spec.build_bytes(&env)) {
+                Err(p) => acc.viol(panic_violation("big-payloads", &p, case()).rank(k as u64)),
+                Ok(Err(e)) => acc.viol(Violation::new("big-payloads", format!("a valid configuration does not build: {}", e), case()).sig("clause", "build-fails").rank(k as u64)),
+                Ok(Ok((_, bytes))) => match parse_pkg(&bytes) {
+                    Ok(Ok(p)) => {
+                        acc.nontrivial += 1;
+                        acc.count(&format!("{:?}", comp.name().unwrap_or("none")));
+                        judge_built("big-payloads", &spec, &p, k as u64, &case, &mut acc);
+                        acc.sample(k as u64, case);
+                    }
+                    _ => acc.viol(Violation::new("big-payloads", "built package is not accepted by the parser", case()).sig("clause", "reparse").rank(k as u64)),
+                },
+            }
+        }
+        SubReport::new("big-payloads", "A", &format!("{} package(s) whose files add up to {}: built, written, parsed, iterated: the same oracle as for the small packages", cases.len(), if ctx.thorough() { "2^26, 2^27 ∓ 4096, 2^28 and 2^30 (+4096) bytes × {none, gzip 1, zstd 1 / 3 / 19 / default, xz 0}, in one file or three" } else { "2^27 + 4096 bytes (zstd 1, one file); the thorough tier walks sizes from 2^26 to 2^30 and five compressors" }), acc)
+    };
+    if s1.acc.nontrivial == 0 || s2.acc.nontrivial == 0 || s3.acc.nontrivial == 0 {
         crate::ctx::machinery("nothing judged: vacuous");
     }
     ctx.finish(
         "exploration",
-        vec![s1, s2],
+        vec![s1, s2, s3],
         &[
             "the stripped (large-file) layout is reached below 4 GiB through the verif-hooks feature; with > 4 GiB of real content it is not exercised",
-            "file sizes beyond 64 KiB (quick) / 5 MiB (thorough) and more than three files per package are not covered here",
+            "between 64 KiB (quick) / 5 MiB (thorough) and the big-payloads sizes only the listed sizes are covered",
             "flate2 / zstd / liblzma as used by the harness to compress foreign payloads",
         ],
         vec![],
